@@ -240,6 +240,53 @@ fn families(thorough: bool) -> Vec<Prog> {
             names: with_names(&[n, "cb", "pr", "r"]),
         });
     }
+    // ---- 4b. binders (if-set, match type arm, while-set, for, parameters) are visible in their body only:
+    //          the else branch, the other arms and the code after still see the enclosing declaration
+    for n in &names {
+        let cases: Vec<(&str, String, &str)> = vec![
+            ("if-set else branch", format!("f := ({n}: int, zw: int | string) -> any {{ if {n}: string = zw {{ return std.len({n}) }} else {{ return {n} }} }}; (f(7, 3), f(7, \"ab\"))"), "(7, 2)"),
+            ("if-set else-if chain", format!("f := ({n}: int, zw: int | string | float) -> any {{ if {n}: string = zw {{ return 1 }} else if {n}: float = zw {{ return 2 }} else {{ return {n} }} }}; (f(7, 3), f(7, 1.5), f(7, \"s\"))"), "(7, 2, 1)"),
+            ("after if-set", format!("f := ({n}: int, zw: int | string) -> any {{ if {n}: string = zw {{ obs = {n} }}; return {n} }}; (f(7, \"ab\"), *obs)"), "(7, \"ab\")"),
+            ("match later arms", format!("f := ({n}: int, zw: int | string | float) -> any {{ return match zw {{ {n}: string => 1, 9 => {n} + 100, {n}: float => 2, => {n}, }} }}; (f(7, 3), f(7, \"s\"), f(7, 9), f(7, 1.5))"), "(7, 1, 107, 2)"),
+            ("after while-set", format!("f := ({n}: int) -> any {{ zsrc := [1, 2]~; while {n}: (bool, int) = zsrc() {{ if !{n}.0 {{ break }} }}; return {n} }}; f(7)"), "7"),
+            ("after for", format!("f := ({n}: int) -> any {{ for {n} in [1, 2]~ {{ obs = {n} }}; return ({n}, *obs) }}; f(7)"), "(7, 2)"),
+            ("for body sees loop variable", format!("f := ({n}: int) -> any {{ zacc := mut 0; for {n} in [1, 2]~ {{ zacc += {n} }}; return (*zacc, {n}) }}; f(7)"), "(3, 7)"),
+            ("nested function parameter", format!("f := ({n}: int) -> any {{ zg := ({n}: string) -> any {{ return {n} }}; return (zg(\"in\"), {n}) }}; f(7)"), "(\"in\", 7)"),
+            ("destructuring in block", format!("f := ({n}: int) -> any {{ {{ ({n}, zother) := (1, 2); obs = {n} + zother }}; return ({n}, *obs) }}; f(7)"), "(7, 3)"),
+            ("top-level if-set else", format!("{n} := id(7); zw := id(3); r := if {n}: string = zw {{ 1 }} else {{ {n} }}; ({n}, r)"), "(7, 7)"),
+            ("top-level match arms", format!("{n} := id(7); zw := id(3); r := match zw {{ {n}: string => 1, => {n}, }}; ({n}, r)"), "(7, 7)"),
+        ];
+        for (fam, text, want) in cases {
+            let mut stmts: Vec<String> = pre(vec![]);
+            let mut declared: Vec<&str> = Vec::new();
+            for p in text.split("; ") {
+                // only split at top level: statements of these programs that contain braces are kept whole
+                stmts.push(p.to_string());
+            }
+            // re-join pieces that were split inside braces
+            let mut joined: Vec<String> = Vec::new();
+            let mut depth = 0i32;
+            for p in stmts.drain(PRELUDE.len()..) {
+                if depth > 0 {
+                    let last = joined.last_mut().unwrap();
+                    last.push_str("; ");
+                    last.push_str(&p);
+                } else {
+                    joined.push(p.clone());
+                }
+                depth += p.matches('{').count() as i32 - p.matches('}').count() as i32;
+            }
+            for j in &joined {
+                if let Some((lhs, _)) = j.split_once(" := ") {
+                    if lhs.chars().all(|c| c.is_ascii_alphanumeric() || c == '_') {
+                        declared.push(Box::leak(lhs.to_string().into_boxed_str()));
+                    }
+                }
+            }
+            stmts.extend(joined);
+            out.push(Prog { family: format!("binder scope: {fam}"), stmts, expected: Some(want.into()), names: with_names(&declared) });
+        }
+    }
     // ---- 5. a module / import yields exactly its own top-level names
     out.push(Prog {
         family: "module fields".into(),
